@@ -1,0 +1,12 @@
+//go:build verif
+
+package leader
+
+import "github.com/nats-io/nats.go"
+
+// VerifNewKeyValueAdapter exposes the package's real (unexported) adapter over a
+// nats.KeyValue bucket to the verification harness in /verif. It exists only under
+// the "verif" build tag and is never part of a normal build.
+func VerifNewKeyValueAdapter(kv nats.KeyValue) KeyValue {
+	return &natsKeyValueAdapter{kv: kv}
+}
